@@ -292,6 +292,11 @@ void SubprocessSet::Clear() {
   nx_seam_enter();
   // kill(-pid, signal) for every running command: each had either not yet touched its outputs,
   // or already (partially) written them and its depfile.
+  {
+    // completions ninja never asked for: to ninja they are commands it abandoned together with the running ones
+    std::queue<Subprocess*> q = finished_;
+    while (!q.empty()) { g_cur.res->cmds[q.front()->pid_].unreaped = true; q.pop(); }
+  }
   for (Subprocess* s : running_) {
     RunCmd& rc = g_cur.res->cmds[s->pid_];
     rc.killed = true;
